@@ -177,6 +177,18 @@ REVERTS = [
     ("accepted an edge tuple as additional start / end node", ["C19"]),
     ("MinErrorFlow must reject NaN / infinite weights", ["C19"]),
     ("read_graphs stored no n / m / w for a block without edge lines", ["C20"]),
+    ("DAG models look solution values up under the nodes themselves", ["C01"]),
+    ("flow sums of the conservation check, the source flow", ["C19"]),
+    ("trusted_edges_for_safety_percentile is taken over the edges whose value counts", ["C07"]),
+    ("MinFlowDecompCycles reads the largest flow value again at every solve", ["C18"]),
+    ("kMinPathError keeps its own validated copy of path_length_ranges", ["C18", "C19"]),
+    ("error_scaling factors of any real number type are stored as floats", ["C07", "C08"]),
+    ("a MultiDiGraph is rejected with ValueError", ["C19"]),
+    ("0-dimensional numpy arrays are stored as Python numbers", ["C18"]),
+    ("an infinite entry of solution_weights_superset", ["C19"]),
+    ("MinErrorFlow refuses additional_starts / additional_ends on a graph with cycles", ["C19"]),
+    ("read_graph treats a header line as a subpath constraint only if its first token", ["C20"]),
+    ("one-shot iterables given as elements_to_ignore", ["C10"]),
 ]
 
 
